@@ -385,6 +385,11 @@ pub fn run(ctx: &mut Ctx) -> Result<(), Violation> {
         Ok(())
     });
     ctx.stage("random-soups-mutations-decorations", false, r)?;
+    if ctx.tier == Tier::Thorough {
+        let seeds: Vec<Vec<u8>> = repo_texts().into_iter().filter(|s| s.len() < 4000).map(|s| s.into_bytes()).collect();
+        let r = fuzz_stage(ctx, "parse_diff", 3_000_000, 400, &seeds, replay);
+        ctx.stage("libfuzzer-parse_diff", false, r)?;
+    }
     Ok(())
 }
 
